@@ -92,7 +92,7 @@ def main():
     ck.check_props()
     cases = G.exhaustive_small()
     if ck.quick:
-        cases += G.collections(ck.rng, 1500, 3, 5) + G.collections(ck.rng, 300, 6, 6) + G.collections(ck.rng, 300, 9, 16) + G.dense_collections(ck.rng, 6000, 4, 6) + G.sparse_collections(ck.rng, 4000, 4, 5)
+        cases += G.collections(ck.rng, 1500, 3, 5) + G.collections(ck.rng, 300, 6, 6) + G.collections(ck.rng, 300, 9, 16) + G.dense_collections(ck.rng, 6000, 4, 6) + G.sparse_collections(ck.rng, 4000, 4, 5) + G.sparse_collections(ck.rng, 300, 6, 6, 13, 18)
     else:
         cases += G.collections(ck.rng, 12000, 3, 5) + G.collections(ck.rng, 3000, 6, 7) + G.collections(ck.rng, 150, 8, 8) + G.collections(ck.rng, 3000, 9, 16) + G.dense_collections(ck.rng, 30000, 4, 6) + G.sparse_collections(ck.rng, 25000, 4, 6)
     res = ck.impl("c02", [{"gens": g} for _, _, g in cases], per_case_s=120)
